@@ -499,6 +499,11 @@ def _calls(py):
             return a, p, b, it.trajectory.copy(), it.get_pva().copy()
         return f
     add("strapdown.Integrator(3d)", lambda: (integ(True), (D()["pva"], D()["inc"]), {}))
+    def integ_whole(pva, inc):
+        it = S.Integrator(pva)
+        return it.integrate(inc), it.trajectory.copy()
+    add("strapdown.Integrator(whole table, unnamed index)", lambda: (integ_whole, (D()["pva"], D()["inc"].rename_axis(None)), {}))
+    add("strapdown.Integrator(whole table, index named otherwise)", lambda: (integ_whole, (D()["pva"], D()["inc"].rename_axis("t")), {}))
     add("strapdown.Integrator(2d, VD != 0)", lambda: (integ(False), (D()["pva"] + np.array([0, 0, 0, 0, 0, 1.5, 0, 0, 0]), D()["inc"]), {}))
     for wa in (True, False):
         em = EM.InsErrorModel(wa)
@@ -559,18 +564,26 @@ def _calls(py):
     add("sim.generate_pva_error", lambda: (SIM.generate_pva_error, (1.0, 0.1, 0.1, 0.5), dict(rng=4)))
     add("sim.perturb_pva", lambda: (SIM.perturb_pva, (D()["pva"], D()["err"]), {}))
 
-    def fb(pva, inc, pos, vel, wa):
-        gm, am = IS.EstimationModel(bias_sd=1e-4), IS.EstimationModel(bias_sd=1e-2, noise=1e-3)
-        r = F.run_feedback_filter(pva, 5, 0.5, 1, 2, inc, gm, am, measurements=[M.Position(pos, 2.0), M.NedVelocity(vel, 0.3)], time_step=0.5, with_altitude=wa)
+    def models():
+        return (IS.EstimationModel(bias_sd=1e-4, scale_misal_sd=np.diag([1e-3, 0.0, 2e-3])), IS.EstimationModel(bias_sd=1e-2, noise=1e-3))
+
+    def fb(pva, inc, pos, vel, wa, gm, am, meas):
+        r = F.run_feedback_filter(pva, 5, 0.5, 1, 2, inc, gm, am, measurements=meas, time_step=0.5, with_altitude=wa)
         return [r[k] for k in ("trajectory", "trajectory_sd", "gyro", "gyro_sd", "accel", "accel_sd")] + [r.innovations["Position"], r.innovations["NedVelocity"]]
 
-    def ff(traj, inc, pos, vel, wa):
-        gm, am = IS.EstimationModel(bias_sd=1e-4), IS.EstimationModel(bias_sd=1e-2, noise=1e-3)
-        r = F.run_feedforward_filter(traj, traj, 5, 0.5, 1, 2, gm, am, measurements=[M.Position(pos, 2.0), M.NedVelocity(vel, 0.3)], increments=inc, time_step=0.5, with_altitude=wa)
+    def ff(traj, inc, pos, vel, wa, gm, am, meas):
+        r = F.run_feedforward_filter(traj, traj, 5, 0.5, 1, 2, gm, am, measurements=meas, increments=inc, time_step=0.5, with_altitude=wa)
         return [r[k] for k in ("trajectory", "trajectory_sd", "gyro", "gyro_sd", "accel", "accel_sd")] + [r.innovations["Position"], r.innovations["NedVelocity"]]
     for wa in (True, False):
-        add("filters.run_feedback_filter(%s)" % wa, lambda wa=wa: (fb, (D()["pva"], D()["inc"], D()["pos"], D()["vel"], wa), {}))
-        add("filters.run_feedforward_filter(%s)" % wa, lambda wa=wa: (ff, (D()["traj"], D()["inc"], D()["pos"], D()["vel"], wa), {}))
+        def fb_args(wa=wa):
+            d = D()
+            return (fb, (d["pva"], d["inc"], d["pos"], d["vel"], wa) + models() + ([M.Position(d["pos"], 2.0), M.NedVelocity(d["vel"], 0.3)],), {})
+
+        def ff_args(wa=wa):
+            d = D()
+            return (ff, (d["traj"], d["inc"], d["pos"], d["vel"], wa) + models() + ([M.Position(d["pos"], 2.0), M.NedVelocity(d["vel"], 0.3)],), {})
+        add("filters.run_feedback_filter(%s)" % wa, fb_args)
+        add("filters.run_feedforward_filter(%s)" % wa, ff_args)
     return out
 
 
@@ -578,15 +591,24 @@ def _snap(x):
     if isinstance(x, np.ndarray):
         return ("nd", x.dtype.str, x.shape, x.tobytes())
     if isinstance(x, pd.DataFrame):
-        return ("df", list(map(str, x.columns)), x.index.values.tobytes(), x.values.tobytes() if x.values.dtype != object else repr(x.values.tolist()))
+        return ("df", list(map(str, x.columns)), repr(x.columns.name), repr(x.index.name), x.index.values.tobytes(),
+                x.values.tobytes() if x.values.dtype != object else repr(x.values.tolist()))
     if isinstance(x, pd.Series):
-        return ("s", list(map(str, x.index)), repr(x.name), x.values.tobytes() if x.values.dtype != object else repr(x.values.tolist()))
+        return ("s", list(map(str, x.index)), repr(x.name), repr(x.index.name), x.values.tobytes() if x.values.dtype != object else repr(x.values.tolist()))
+    if isinstance(x, pd.Index):
+        return ("idx", repr(x.name), x.values.tobytes() if x.values.dtype != object else repr(x.values.tolist()))
     if isinstance(x, (list, tuple)):
         return (type(x).__name__,) + tuple(_snap(v) for v in x)
     if isinstance(x, dict):
         return ("dict",) + tuple((k, _snap(v)) for k, v in sorted(x.items()))
     if x is None or isinstance(x, (int, float, str, bool, np.generic)):
         return ("v", repr(x))
+    mod = getattr(type(x), "__module__", "") or ""
+    if mod.startswith("pyins") and hasattr(x, "__dict__"):
+        # an object of the library handed to a call (a sensor model, a measurement): everything it holds, except the one
+        # documented exception -- the ESTIMATE state of a sensor model handed to a filter (transform, bias)
+        skip = {"transform", "bias"} if type(x).__name__ == "EstimationModel" else set()
+        return ("obj", type(x).__name__) + tuple((k, _snap(v)) for k, v in sorted(vars(x).items()) if k not in skip)
     return ("obj", type(x).__name__)
 
 
